@@ -91,6 +91,7 @@ impl FromStr for AttoTokens {
         let converted_units = {
             let units = itr
                 .next()
+                .filter(|s| s.bytes().all(|b| b.is_ascii_digit()))
                 .and_then(|s| s.parse::<Amount>().ok())
                 .ok_or_else(|| {
                     EvmError::FailedToParseAttoToken("Can't parse token units".to_string())
@@ -106,6 +107,10 @@ impl FromStr for AttoTokens {
 
             if remainder_str.is_empty() {
                 Amount::ZERO
+            } else if !remainder_str.bytes().all(|b| b.is_ascii_digit()) {
+                return Err(EvmError::FailedToParseAttoToken(
+                    "Can't parse token remainder".to_string(),
+                ));
             } else {
                 let parsed_remainder = remainder_str.parse::<Amount>().map_err(|_| {
                     EvmError::FailedToParseAttoToken("Can't parse token remainder".to_string())
@@ -118,7 +123,10 @@ impl FromStr for AttoTokens {
             }
         };
 
-        Ok(Self(converted_units + remainder))
+        converted_units
+            .checked_add(remainder)
+            .map(Self)
+            .ok_or(EvmError::ExcessiveValue)
     }
 }
 
